@@ -235,6 +235,8 @@ def st_case(draw):
                 if name == "__priv":
                     o["as"] = "_%s__priv" % classes[owner]["name"]
                 choices.append(o)
+                if kind == "method" and name in ("m", "n1", "n2"):
+                    choices.append(dict(o, unbound_kw=True))  # K.m(self=o, x=...): the instance arrives by keyword
             elif kind == "getter":
                 choices.append({"op": "get", "k": k, "m": name})
             elif kind == "setter":
